@@ -19,4 +19,6 @@ D3060 == {30, 60}
 D60 == {60}
 DReal == {1, 4, 5}
 DTest == {1, 2, 3, 5}
+DUpTo5 == 1..5
+DUpTo60 == 1..60
 ====
